@@ -1,5 +1,5 @@
 (* Dispatcher used by the correspondence drivers: function number -> wire -> wire. *)
-From DD Require Import Base.Wire Model.Lexer Model.Writer Spec.StdReader Run.NodeWire Run.CheckWire Run.OptWire Run.TypeWire.
+From DD Require Import Base.Wire Model.Lexer Model.Writer Spec.StdReader Run.NodeWire Run.CheckWire Run.OptWire Run.TypeWire Run.RwWire.
 
 Definition r_lexeme (w : wire) : lexeme :=
   match w with WN 0%Z => LPar | WN _ => RPar | WL _ => Tok (r_str w) end.
@@ -21,7 +21,9 @@ Definition dispatch (f : Z) (w : wire) : wire :=
   | 9 => match w with WL [l; it] => w_str (render (r_str l) (r_items it)) | _ => w_err end
   | _ => if (Z.leb 10 f && Z.ltb f 30)%Z then dispatch_node f w
          else if (Z.leb 30 f && Z.ltb f 40)%Z then dispatch_check f w
-         else if (Z.leb 50 f && Z.ltb f 60)%Z then dispatch_type f w
+         else if (Z.eqb f 50)%Z then dispatch_type f w
+         else if (Z.leb 59 f && Z.ltb f 80)%Z then dispatch_rw f w
+         else if (Z.leb 51 f && Z.ltb f 59)%Z then dispatch_smtlib f w
          else if (Z.eqb f 45)%Z then dispatch_cli f w
          else if (Z.eqb f 46)%Z then dispatch_file f w
          else if (Z.leb 40 f && Z.ltb f 50)%Z then dispatch_opt f w else w_err
